@@ -86,7 +86,9 @@ func (t *zzTransport) Write(p []byte) (int, error) {
 	if t.onWrite != nil {
 		t.onWrite(p)
 	}
-	t.buffers++
+	if t.buffers < 32 {
+		t.buffers++ // saturating
+	}
 	t.record(p)
 	t.inWrite = false
 	return len(p), nil
@@ -112,7 +114,9 @@ func (t *zzTransport) Writev(buffs transport.Buffers) (int64, error) {
 	}
 	var n int64
 	for _, b := range buffs {
-		t.buffers++
+		if t.buffers < 32 {
+			t.buffers++ // saturating (a sender that spins handing over empty vectors stays in a finite state space)
+		}
 		if t.onWrite != nil {
 			t.onWrite(b)
 		}
